@@ -196,7 +196,7 @@ def _kdf_context(ctx):
                "the value set by CoseKdfContextBuilder::%s is decoded from slot %d as %s" % (m, slot, kind), where=d.span,
                detail={"field": fld, "found": dd})
     # the variable tail, as a sequence value: map(try_as_bytes?, <the input array>[4..]) - wire order, nothing dropped
-    from lib.seq import Seq, show_seq, X
+    from lib.seq import Seq, show_seq, X, strip_seq
     from lib.prov import strip_sites
     tail_f = bfields.get("add_supp_priv_info")
     ok = False
@@ -207,7 +207,7 @@ def _kdf_context(ctx):
         arr = ("tryok", ("call", codec.TRY_ARRAY, (("param", 0),)))
         want_s = ("map", ("tryok", ("call", codec.TRY_BYTES, (X,))), ("elems", arr, 4, None))
         det = {"sequence": show_seq(s)[:300], "expected": show_seq(want_s)}
-        ok = s == want_s
+        ok = strip_seq(s) == want_s
     ctx.ob("R-kdf", "tail:%s" % ty, ok,
            "every slot from index 4 on must be a byte string; the field holds them converted one by one in wire order",
            where=d.span, detail=det, sample=det)
@@ -241,7 +241,7 @@ KDF_WANT = [("algorithm", 0, "nested<common::RegisteredLabelWithPrivate<iana::Al
 
 def kdf_encoder(ctx, rule):
     """the encoder's array as a sequence value: [algorithm, PartyU, PartyV, SuppPub] ++ map(Value::Bytes, self.<tail>)"""
-    from lib.seq import Seq, show_seq, X
+    from lib.seq import Seq, show_seq, X, strip_seq
     prog = ctx.prog
     ty = "context::CoseKdfContext"
     bfields = _kdf_builder_fields(prog)
@@ -265,7 +265,7 @@ def kdf_encoder(ctx, rule):
             if k2 != kind or f2 != bfields.get(m):
                 problems.append("slot %d is `%s` as %s, expected `%s` as %s" % (slot, f2, k2, bfields.get(m), kind))
         want_tail = ("map", ("aggr", "ciborium::value::Value", "Bytes", (("0", X),)), ("elems", ("field", ("param", 0), tail_f), 0, None))
-        if rest != [want_tail]:
+        if [strip_seq(x) for x in rest] != [want_tail]:
             problems.append("the tail is not Value::Bytes(x) for each x of self.%s in list order: %s" % (tail_f, " ++ ".join(show_seq(x) for x in rest)[:160]))
     ctx.ob(rule, "encoder:%s" % ty, not problems, "COSE_KDF_Context is emitted as [algorithm, PartyU, PartyV, SuppPub, private byte strings in order...]",
            where=e.span, detail={"problems": problems, "sequence": show_seq(s)[:300] if s else None})
